@@ -167,6 +167,14 @@ def check_tree(root: M.RawModel, *, complete: bool = True) -> list[tuple[str, st
         return span
 
     top = rec(root, type(root).__name__)
+    if top is not None:
+        # a block comment inside the tree's span is flagged `claimed` exactly when some slot of the tree owns it
+        lo0, hi0 = top
+        for t in store:
+            if isinstance(t, M.BlockComment) and lo0 <= order[id(t)] <= hi0 and t.claimed != (id(t) in owned):
+                errs.append(('claimed-flag-disagrees-with-ownership',
+                             f'comment {t.raw_text!r}: claimed={t.claimed} but ' + (f'owned by {owned[id(t)]}' if id(t) in owned else 'owned by no slot')))
+                break
     if complete and top is not None:
         lo, hi = top
         for t in store:
